@@ -176,6 +176,27 @@ pub(crate) mod kani_verif {
         k
     }
 
+    /// Contract of ReferenceImplPrivateKey::increment as an executable stub (used by callers' harnesses: hss_sign_core).
+    /// It is exactly the statement check_outer_inc proves about the real body: counter < last => counter + 1 and nothing
+    /// else changes; otherwise the wiped key (counter 0, parameter bytes 0xff, seed all zero).
+    pub fn contract_outer_increment<HH: HashChain>(this: &mut ReferenceImplPrivateKey<HH>, hss_private_key: &HssPrivateKey<HH>) {
+        let mut hs = [0u32; MAX_ALLOWED_HSS_LEVELS];
+        let n = hss_private_key.private_key.len();
+        let mut i = 0;
+        while i < n {
+            hs[i] = hss_private_key.private_key[i].lms_parameter.get_tree_height() as u32;
+            i += 1;
+        }
+        let last = spec_last_counter(&hs[..n]);
+        if this.compressed_used_leafs_indexes.count < last {
+            this.compressed_used_leafs_indexes.count += 1;
+        } else {
+            this.seed = Seed::default();
+            this.compressed_parameter = CompressedParameterSet([0xff; MAX_ALLOWED_HSS_LEVELS]);
+            this.compressed_used_leafs_indexes = CompressedUsedLeafsIndexes::new(0);
+        }
+    }
+
     fn any_ref_key() -> ReferenceImplPrivateKey<H> {
         let mut k = ReferenceImplPrivateKey::<H>::default();
         k.compressed_used_leafs_indexes = CompressedUsedLeafsIndexes::new(kani::any());
@@ -239,4 +260,123 @@ pub(crate) mod kani_verif {
     outer_inc_harness!(c05_outer_inc_l3, 3);
     // @h name=c05_outer_inc_l8 props=C05,C13,C03,C16 tier=thorough kind=proved funcs=ReferenceImplPrivateKey::increment;ReferenceImplPrivateKey::wipe contract="same, 8 levels"
     outer_inc_harness!(c05_outer_inc_l8, 8);
+
+    // ================================================================== C08 / C09 / C03(e): key derivation (recording hash)
+    use crate::hss::seed_derive::kani_verif::spec_prng_block;
+
+    /// hash-sigs top-seed block: 20 zero bytes || D_TOPSEED (0xfe 0xfe) || which (1) || seed field (32 bytes)
+    fn spec_topseed_block(which: u8, seed_field: &[u8; 32]) -> [u8; 55] {
+        let mut b = [0u8; 55];
+        b[20] = 0xfe;
+        b[21] = 0xfe;
+        b[22] = which;
+        b[23..55].copy_from_slice(seed_field);
+        b
+    }
+
+    fn check_root_seed<const N: usize>() {
+        type R<const N: usize> = RecHash<N, 64>;
+        R::<N>::reset_log();
+        let mut k = ReferenceImplPrivateKey::<R<N>>::default();
+        let sb: [u8; 32] = kani::any();
+        k.seed = Seed::from(sb); // whole backing buffer symbolic: bytes beyond n must not matter
+        let r = k.generate_root_seed_and_lms_tree_identifier();
+        assert!(R::<N>::calls() == 3, "exactly three hash calls");
+        let mut f0 = [0u8; 32];
+        f0[..N].copy_from_slice(&sb[..N]);
+        assert!(R::<N>::pre_is(0, &spec_topseed_block(0, &f0)), "call 0: topseed block with which=0 over the key's n seed bytes (zero-filled)");
+        let mut f1 = [0u8; 32];
+        f1[..N].copy_from_slice(&R::<N>::out(0)[..N]);
+        assert!(R::<N>::pre_is(1, &spec_topseed_block(1, &f1)), "call 1: which=1 over the first output");
+        assert!(R::<N>::pre_is(2, &spec_topseed_block(2, &f1)), "call 2: which=2 over the first output");
+        assert!(r.seed.as_slice() == &R::<N>::out(1)[..N], "root seed = output 1");
+        assert!(r.lms_tree_identifier[..] == R::<N>::out(2)[..ILEN], "root tree identifier = first 16 bytes of output 2");
+        kani::cover!(sb[N - 1] != 0, "non-trivial seed reachable");
+    }
+    macro_rules! rec_harness {
+        ($name:ident, $body:expr, $unw:expr) => {
+            #[kani::proof]
+            #[kani::stub(zeroize::optimization_barrier, no_barrier)]
+            #[kani::stub(<[u8; 32] as tinyvec::Array>::default, fast_default)]
+            #[kani::unwind($unw)]
+            fn $name() {
+                $body;
+            }
+        };
+    }
+    // @h name=c08_root_seed_n32 props=C08,C09,C03,C01 tier=quick kind=proved cfg=w8 funcs=ReferenceImplPrivateKey::generate_root_seed_and_lms_tree_identifier contract="3 hash calls on the hash-sigs top-seed pre-images; (seed, I) = (out1, out2[..16]); depends only on the n stored seed bytes; every seed, every hash function; n=32"
+    rec_harness!(c08_root_seed_n32, check_root_seed::<32>(), 70);
+    // @h name=c08_root_seed_n24 props=C08,C09,C03,C01 tier=quick kind=proved cfg=w8 funcs=ReferenceImplPrivateKey::generate_root_seed_and_lms_tree_identifier contract="same, n=24 (8 backing bytes beyond the seed must not influence the result)"
+    rec_harness!(c08_root_seed_n24, check_root_seed::<24>(), 70);
+    // @h name=c08_root_seed_n16 props=C08,C09,C03,C01 tier=thorough kind=proved cfg=w8 funcs=ReferenceImplPrivateKey::generate_root_seed_and_lms_tree_identifier contract="same, n=16"
+    rec_harness!(c08_root_seed_n16, check_root_seed::<16>(), 70);
+
+    fn check_child_and_randomizer<const N: usize>() {
+        type R<const N: usize> = RecHash<N, 64>;
+        R::<N>::reset_log();
+        let sb: [u8; 32] = kani::any();
+        let id: [u8; 16] = kani::any();
+        let mut parent = SeedAndLmsTreeIdentifier::<R<N>>::default();
+        parent.seed = Seed::from(sb);
+        parent.lms_tree_identifier = id;
+        let q: u32 = kani::any();
+        let child = generate_child_seed_and_lms_tree_identifier(&parent, &q);
+        assert!(R::<N>::calls() == 2, "child derivation: two hash calls");
+        assert!(R::<N>::pre_is(0, &spec_prng_block::<N>(&id, q, 0xfffe, &sb)[..55]), "child seed: I||q||0xfffe||0xff||seed");
+        assert!(R::<N>::pre_is(1, &spec_prng_block::<N>(&id, q, 0xffff, &sb)[..55]), "child I: I||q||0xffff||0xff||seed");
+        assert!(child.seed.as_slice() == &R::<N>::out(0)[..N], "child seed = output 0");
+        assert!(child.lms_tree_identifier[..] == R::<N>::out(1)[..ILEN], "child tree identifier = first 16 bytes of output 1");
+        let c = generate_signature_randomizer(&parent, &q);
+        assert!(R::<N>::calls() == 3, "randomizer: one hash call");
+        assert!(R::<N>::pre_is(2, &spec_prng_block::<N>(&id, q, 0xfffd, &sb)[..55]), "randomizer: I||q||0xfffd||0xff||seed");
+        assert!(c.len() == N && c.as_slice() == &R::<N>::out(2)[..N], "randomizer = output");
+        kani::cover!(q == 0x01020304, "non-trivial q reachable");
+    }
+    // @h name=c08_child_seed_n32 props=C08,C09,C03,C07 tier=quick kind=proved cfg=w8 funcs=generate_child_seed_and_lms_tree_identifier;generate_signature_randomizer contract="child (seed, I) = H(I||q||0xfffe||0xff||seed), H(I||q||0xffff||0xff||seed)[..16]; randomizer C = H(I||q||0xfffd||0xff||seed); every parent seed/I/q, every hash function, n=32"
+    rec_harness!(c08_child_seed_n32, check_child_and_randomizer::<32>(), 70);
+    // @h name=c08_child_seed_n24 props=C08,C09,C03,C07 tier=thorough kind=proved cfg=w8 funcs=generate_child_seed_and_lms_tree_identifier;generate_signature_randomizer contract="same, n=24"
+    rec_harness!(c08_child_seed_n24, check_child_and_randomizer::<24>(), 70);
+
+    // ================================================================== C08: key blob encoding
+    fn check_blob<const L: usize>() {
+        type HH = Sha256_128;
+        let (codes, _hs) = any_heights::<L>(true);
+        let mut wc = [0u8; L];
+        let mut i = 0;
+        while i < L {
+            wc[i] = any_lmots_code();
+            i += 1;
+        }
+        let params = param_list::<HH>(&codes, &wc);
+        let sb: [u8; 16] = kani::any();
+        let mut seed = Seed::<HH>::default();
+        seed.as_mut_slice().copy_from_slice(&sb);
+        let k = ReferenceImplPrivateKey::<HH>::generate(params.as_slice(), &seed).unwrap();
+        let blob = k.to_binary_representation();
+        assert!(blob.len() == 8 + 8 + 16, "blob length 8 + 8 + n");
+        assert!(blob[..8] == [0u8; 8], "fresh key: counter 0, big-endian");
+        i = 0;
+        while i < 8 {
+            let expect = if i < L { (codes[i] << 4) | wc[i] } else { 0xff };
+            assert!(blob[8 + i] == expect, "parameter byte = height code << 4 | winternitz code, 0xff padding");
+            i += 1;
+        }
+        assert!(blob[16..] == sb[..], "seed follows");
+        let back = ReferenceImplPrivateKey::<HH>::from_binary_representation(blob.as_slice()).unwrap();
+        assert!(back == k, "parse(serialise(k)) == k");
+        let ps = back.compressed_parameter.to::<HH>().unwrap();
+        assert!(ps.len() == L, "decoded level count");
+        i = 0;
+        while i < L {
+            assert!(ps[i] == params[i], "decoded parameters equal the original list");
+            i += 1;
+        }
+        kani::cover!(true, "reachable");
+    }
+    // @h name=c08_blob_l1 props=C08,C14 tier=quick kind=proved cfg=default funcs=ReferenceImplPrivateKey::generate;ReferenceImplPrivateKey::to_binary_representation;ReferenceImplPrivateKey::from_binary_representation;CompressedParameterSet::from;CompressedParameterSet::to contract="blob == be64(0) || (hcode<<4|wcode) x L || 0xff padding to 8 || seed; round trip; all parameter choices of 1 level, every seed"
+    rec_harness!(c08_blob_l1, check_blob::<1>(), 36);
+    // @h name=c08_blob_l3 props=C08,C14 tier=quick kind=proved cfg=default funcs=ReferenceImplPrivateKey::generate;ReferenceImplPrivateKey::to_binary_representation;CompressedParameterSet::from;CompressedParameterSet::to contract="same, 3 levels"
+    rec_harness!(c08_blob_l3, check_blob::<3>(), 36);
+    // @h name=c08_blob_l8 props=C08,C14 tier=thorough kind=proved cfg=default funcs=ReferenceImplPrivateKey::generate;ReferenceImplPrivateKey::to_binary_representation;CompressedParameterSet::from;CompressedParameterSet::to contract="same, 8 levels"
+    rec_harness!(c08_blob_l8, check_blob::<8>(), 36);
 }
